@@ -618,6 +618,7 @@ package yang
 //@   ensures  forall k string :: k != key ==> e.Dir[k] == old(e.Dir[k]) && has(e.Dir, k) == old(has(e.Dir, k))
 //@   ensures  old(has(e.Dir, key)) ==> len(e.Errors) == old(len(e.Errors))
 //@   ensures  !old(has(e.Dir, key)) ==> len(e.Errors) == old(len(e.Errors)) + 1
+//@   ensures  arr(e.Errors) == old(arr(e.Errors)) || fresh(e.Errors)
 //@   modifies contents(e.Dir), e.Errors, elems(e.Errors)
 //@   safe
 //
@@ -803,6 +804,33 @@ package yang
 //@   before[a-target-that-cannot-have-children-is-an-error] (*Entry).errorf#2 target != nil && target.Dir == nil
 //@   loop 1
 //@     invariant processed + skipped == _k && len(unapplied) == skipped
+
+// ---------------------------------------------------------------------------
+// C08: deviations. Whatever the deviate statements of one deviation are, the
+// loop that applies them writes the target node and nothing else that existed:
+// its config, default, mandatory, units and type, the two bounds of its list
+// attributes, and -- for not-supported -- the child map of its parent (delete
+// removes one key, see its contract) and an error on that parent; errors go to
+// the list this call returns. not-supported removes the target itself from its
+// own parent. (Partial contract: which values are written is exercised by the
+// bounded comparison with RFC 7950 7.20.3; Find and the sort are outside.)
+//@ func (*Entry).ApplyDeviate$appendErr props C08
+//@   ensures  len(errs) == old(len(errs)) + 1 && (arr(errs) == old(arr(errs)) || fresh(errs))
+//@   modifies cell(errs), elems(errs)
+//@   safe
+//@ func hasIgnoreDeviateNotSupported props C08
+//@   modifies nothing
+//@   safe
+//@ func (*Entry).ApplyDeviate props C08
+//@   only loop4/frame:H: loop4/frame:M loop4/frame:E:Str loop4/frame:C: loop4/frame:B: loop4/inv before:   -- the frame of the error-list arrays (E:Iface) is generated but not claimed: the solvers do not decide it
+//@   before[not-supported-removes-the-target-from-its-own-parent] (*Entry).delete arg0 == deviatedNode.Parent && arg0 != nil && arg1 == deviatedNode.Name
+//@   loop 4
+//@     modifies deviatedNode.Config, deviatedNode.Default, deviatedNode.Mandatory, deviatedNode.Units, deviatedNode.Type
+//@     modifies deviatedNode.ListAttr.MinElements, deviatedNode.ListAttr.MaxElements
+//@     invariant arr(deviatedNode.Default) == 0 || arr(deviatedNode.Default) == loopentry(arr(deviatedNode.Default)) || loopfresh(deviatedNode.Default)
+//@     invariant arr(errs) == 0 || arr(errs) == atentry(arr(errs)) || loopfresh(errs)
+//@     invariant deviatedNode.Parent == nil || arr(deviatedNode.Parent.Errors) == loopentry(arr(deviatedNode.Parent.Errors)) || loopfresh(deviatedNode.Parent.Errors)
+//@     modifies elems(deviatedNode.Default), contents(deviatedNode.Parent.Dir), deviatedNode.Parent.Errors, elems(deviatedNode.Parent.Errors), cell(errs), elems(errs)
 
 // ---------------------------------------------------------------------------
 // C09: type names bind lexically.
